@@ -275,6 +275,10 @@ def replay(failure):
         tr = build_real(inp)
         emitted = []
         tr.refresh.connect(lambda *a: emitted.append(a))
+        disabled = inp.get("disabled") or []
+        if disabled:
+            tr.disable_features(list(disabled))
+        raw_n0 = {n: dict(d) for n, d in tr.graph.nodes(data=True)}
         S0 = snapshot(tr)
         g0 = tr.graph.copy()
         kind = inp["action"]
@@ -308,6 +312,17 @@ def replay(failure):
             return False, "action accepted but obligation is about a refused edit"
         emitted1 = list(emitted)
         detail = f"pre={_brief(S0)} post={_brief(S1)}"
+        if ob == "C10.disabled_feature_untouched_by_edit":
+            for n, d in raw_n0.items():
+                if n in g1:
+                    for key in disabled:
+                        if d.get(key) != g1.nodes[n].get(key):
+                            return True, detail + f" node {n}: disabled {key} changed {d.get(key)} -> {g1.nodes[n].get(key)}"
+            if LID in disabled and (S0["look_l"] != S1["look_l"] or S0["maxl"] != S1["maxl"]):
+                return True, detail + " lineage lookups changed although the feature is disabled"
+            if TID in disabled and (S0["look_t"] != S1["look_t"] or S0["maxt"] != S1["maxt"]):
+                return True, detail + " tracklet lookups changed although the feature is disabled"
+            return False, detail
         if ob.startswith("C03."):
             name = ob[4:]
             if name == "edges_alive":
